@@ -224,8 +224,9 @@ impl<T: Qcow2IoOps> Qcow2Dev<T> {
                 return Err("read_at eof".into());
             } else {
                 // the top device is asking for read, which is usually
-                // caused by top device resize, so simply fake we provide
-                // data requested
+                // caused by top device resize: what lies beyond the end of
+                // a backing image reads as zeros
+                zero_buf!(buf);
                 return Ok(buf.len());
             }
         }
@@ -249,6 +250,8 @@ impl<T: Qcow2IoOps> Qcow2Dev<T> {
             // backed by data, rounded down to a block boundary.
             len = ((vsize - offset) as usize) & !bs_mask;
             if info.is_back_file() {
+                // zeros beyond the end of a backing image
+                buf[len..].fill(0);
                 buf.len() - len
             } else {
                 0
@@ -256,6 +259,8 @@ impl<T: Qcow2IoOps> Qcow2Dev<T> {
         } else {
             0
         };
+        // only the in-image part is read below
+        let buf = &mut buf[..len];
 
         debug_assert!((len & bs_mask) == 0);
 
